@@ -32,7 +32,7 @@ BOUNDS = {
              "depth 4 (whole-body writes); <= 2 client frames (WINDOW_UPDATE/SETTINGS) per history; plus the completion run (<= 80 loop "
              "iterations per phase) from every state",
     "thorough": "w in {1,2,5}; c in {65535, 1, w}; 1 stream: depth 8, <= 3 client frames (<= 2 SETTINGS); 2 streams: bodies (w+1|2w) x (1|w|w+1), "
-                "5 mode/service-order variants (dd both orders, pd, dp, pp), depth 5, <= 3 client frames; completion run from every state",
+                "5 mode/service-order variants (dd both orders, pd, dp, pp), depth 5, <= 2 client frames; completion run from every state",
 }
 ASSUMPTIONS = [
     "trusted base: h2's client-side window accounting, the 9-byte frame header parser and window ledger in this file, and the round-robin "
@@ -760,7 +760,9 @@ def shards(tier, seed):
 def params(tier, nstreams):
     if tier == "quick":
         return {"depth": 6 if nstreams == 1 else 4, "wu_max": 2, "set_max": 2, "cf_max": 2, "whole": nstreams == 2}
-    return {"depth": 8 if nstreams == 1 else 5, "wu_max": 3, "set_max": 2, "cf_max": 3, "whole": nstreams == 2}
+    if nstreams == 1:
+        return {"depth": 8, "wu_max": 3, "set_max": 2, "cf_max": 3, "whole": False}
+    return {"depth": 5, "wu_max": 2, "set_max": 2, "cf_max": 2, "whole": True}
 
 
 def run_shard(shard, tier, seed):
